@@ -528,6 +528,11 @@ pub fn generate_c07(tier: &str, seed: u64, out: &mut Out) {
         "Source: a\nUploaders: A <a@b>, B <b@c>\nBuild-Depends: z, a\n\nPackage: z\nDepends: y\n\nPackage: b\nDepends: c | a\n",
         "Source: s\nMaintainer: M <m@e>\nUploaders:\n U1 <u1@e>,\n U2 <u2@e>\nBuild-Depends: debhelper-compat (= 13), x [!amd64] <!nocheck> | y:any (>> 1:2~)\nBuild-Depends-Indep:\n p,\n o\nBuild-Conflicts: q\nBuild-Conflicts-Arch: k, j\nBuild-Conflics-Arch: k, j\nVcs-Git: https://x/y.git\n\n# about b\nPackage: b\nArchitecture: any\nDepends: ${shlibs:Depends}, ${misc:Depends}, b2 (<< 2), a1\nRecommends: r2, r1\nSuggests: s\nEnhances: e\nPre-Depends: ${misc:Pre-Depends}\nBreaks: old (<< 1)\nConflicts: zz, aa\nDescription: short\n long\n .\n more\n\nPackage: a\nArchitecture: all\nDepends: a1,a0\n",
         "Package: b\nDepends: b, a\n\nSource: s2\n\nPackage: a\n\nSource: s1\nBuild-Depends: x\n",
+        // paragraphs with neither Source nor Package between binary packages that are out of order
+        // (they sort in front of every named package)
+        "Source: s\n\nPackage: zzz\n\nX-Comment: nameless\n\nPackage: aaa\n",
+        "Package: b\n\nX: 1\n\nPackage: a\n\nY: 2\n\nPackage: 0\n",
+        "X: 1\n\nPackage: b\nDepends: z, a\n\nSource: s\n\nY: 2\n\nPackage: a\n",
         "Package: x\nDepends: a (\n",
         "Package: x\nDepends: a (> 1)\n",
         "Package: x\nDepends: a (>= 3000000000), a (>= 3000000001), b\n",
@@ -559,7 +564,7 @@ pub fn generate_c07(tier: &str, seed: u64, out: &mut Out) {
         let rel_names = ["Build-Depends", "Depends", "Recommends", "Pre-Depends", "Breaks", "Conflicts", "Build-Conflics-Arch"];
         for _ in 0..nctl {
             let mut t = String::new();
-            let nparas = 1 + rng.below(3);
+            let nparas = 1 + rng.below(4);
             for i in 0..nparas {
                 if i > 0 {
                     t.push('\n');
@@ -567,7 +572,10 @@ pub fn generate_c07(tier: &str, seed: u64, out: &mut Out) {
                 if rng.chance(10) {
                     t.push_str("# c\n");
                 }
-                if i == 0 && rng.chance(70) {
+                if rng.chance(12) {
+                    // a paragraph that is neither a source nor a binary package
+                    t.push_str(&format!("X-Note: {}\n", rng.pick(&["n", "m"])));
+                } else if i == 0 && rng.chance(70) {
                     t.push_str(&format!("Source: {}\n", rng.pick(&["s", "a", "zz"])));
                 } else {
                     t.push_str(&format!("Package: {}\n", rng.pick(&["b", "a", "c", "a"])));
